@@ -353,7 +353,8 @@ def _struct_build_ok(pre, post):
 
 def register_struct_build(src):
     define_build_folds(src)
-    fcontract('Struct', '_build', [
+    for _cls in ('Struct', 'LazyStruct'):
+      fcontract(_cls, '_build', [
         Case('ok', 'return', lambda pre: t.TRUE, ensures=_struct_build_ok, rkind=rk_container, modifies=['stream']),
         Case('fails', 'raise', lambda pre: t.TRUE, modifies=['stream']),
     ], loops={'for sc in self.subcons': LoopSpec(_struct_build_inv, tags=T)}, tags=T, sequential_build=False,
